@@ -43,7 +43,9 @@ SQL_TEXT = ["o'k", '"q"', 'back\\slash', '100%', '', ' ', "''", 'a\'b"c',
             'ABC', 'abc', 'a1', 'B2', '12', 'x_y', 'NULL', 'null',
             'C:\\data\\in', '\\d+', 'it''s', '%s', '?', ':p', '$1', '😀']
 AWKWARD_COLS = ['select', 'from', 'order', 'group by', 'a b', 'é', '中', 'Mixed',
-                'x-y', "it's", 'a.b', '1st', 'col', 'value', 'index', 't']
+                'x-y', "it's", 'a.b', '1st', 'col', 'value', 'index', 't',
+                'share %', '% done', '%s', '%d x', 'a%%b', '{0}', '{x}',
+                'a:b', '?', '[x]', '$1', 'semi;']
 
 
 def text_values():
@@ -53,9 +55,18 @@ def text_values():
                      T.text_of(T.DIGITS, 1, 4))
 
 
+# more differently-shaped strings than any cap on the number of categories
+# or expressions (MAX_CATEGORIES is 20): each needs its own expression
+VARIED_SHAPES = ['ab', '12', 'ab-12', '12-ab', 'ab.12', 'ab:12', 'ab/12',
+                 'ab@12', 'ab 12', '12.ab', '12:ab', '12/ab', '-ab', '.ab',
+                 ':ab', '/ab', '@ab', 'ab-', 'ab.', 'ab:', 'ab/', 'ab@',
+                 '12-', '12.', '-12', '.12', 'AB_12', '(ab)', '[12]', 'a=1',
+                 'a+b', '#12']
+
+
 @st.composite
 def table(draw):
-    n = draw(st.sampled_from([0, 1, 2, 3, 3, 4, 5, 6, 8, 12]))
+    n = draw(st.sampled_from([0, 1, 2, 3, 3, 4, 5, 6, 8, 12, 12, 28]))
     ncols = draw(st.integers(1, 4))
     names = draw(st.lists(st.one_of(st.sampled_from(AWKWARD_COLS),
                                     st.sampled_from(['a', 'b', 'c', 'd'])),
@@ -71,7 +82,11 @@ def table(draw):
             vs = F.value_strategy(kind)
         mode = draw(st.sampled_from(['pool', 'pool', 'distinct', 'allnull',
                                      'onevalue']))
-        if mode == 'allnull':
+        if kind == 'ostr' and n == 28 and mode != 'allnull':
+            k = draw(st.integers(21, 28))
+            shapes = draw(st.permutations(VARIED_SHAPES))[:k]
+            cells = [shapes[i % k] for i in range(n)]
+        elif mode == 'allnull':
             cells = [None] * n
         else:
             if mode == 'distinct':
